@@ -324,7 +324,7 @@ func (c *checker) cmp(group string, size int, caseKey string, fn string, got *ml
 func run(c *vf.Ctx) {
 	c.Rule = "every (function, argument tuple) of each family is evaluated on the real BIF (or through an in-process mlr run for operators, verbs and flags) and compared with the Python reference or with a law on the real code. " +
 		"Families: str = all strings of <=3 symbols over {a,B,space,e-acute,CJK,e+combining,0xff,tab} x indices -5..5 (pairs) x widths 0..5 x pads; regex = all regexes of <=N AST nodes over {a,b,.,[ab],^,$,*,+,?,|,()} x all subjects of length <=L over {a,b,c} x replacement strings, also in the \"...\"i form on {a,A,b,c} (interleaved with the case-sensitive form) and on UTF-8 subjects over {a,e-acute,CJK}; " +
-		"fmt = %[flags<=2 of -0+space#][width in none,1,5,8][precision in none,.0,.3][verb] x values; inv = inverse pairs / decoders / digests; dsl = capture-state sequences, string-literal escapes, DSL-name binding; verbs = wrapping verbs vs put. " +
+		"fmt = %[flags<=2 of -0+space#][width in none,1,5,8][precision in none,.0,.3][verb incl. every l/ll form] x values, plus the directive-syntax families (same values, same oracle): every width numeral 1..W x flags x {none,.0,.3,.10}, every precision numeral .0...P, the bare period and leading-zero numerals x flags<=1 x widths {none,5,10}, every non-canonical flag sequence (other orders, doubled flags) x widths {none,5,10,100} x {none,.3} (bounds in extra.bounds.format_syntax); inv = inverse pairs / decoders / digests; dsl = capture-state sequences, string-literal escapes, DSL-name binding; verbs = wrapping verbs vs put. " +
 		"distinct_nontrivial = number of evaluations whose expectation was determined by the documentation (not 'unconstrained') and compared"
 	c.Assume("malformed UTF-8 (0xff): the character-aware functions are only required not to crash (docs say nothing); byte-exact functions (digests, base64, hex, ssub/gssub, latin1_to_utf8, format, '.') are asserted on every byte string")
 	c.Assume("substr/substr0/substr1 with out-of-bounds or reversed indices: the trimmed substring (as documented for slices) or an error are both accepted; s[m:n] must trim as reference-main-strings.md says; s[k] out of bounds must be an error")
@@ -357,6 +357,7 @@ func run(c *vf.Ctx) {
 		"regex_utf8_subjects":    map[string]int{"max_ast_nodes": nodesU8, "patterns": len(allRegexes(nodesU8)), "subject_max_len": lenU8, "subjects": len(wordsOver("aXY", lenU8))},
 		"replacement_strings":    replacements,
 		"format_strings":         len(fmtGrid(c.Quick())),
+		"format_syntax":          fmtSyntaxBoundsEvidence(c.Quick()),
 		"format_values":          len(fmtInts) + len(fmtFloats) + 3,
 		"verb_cases":             len(verbCases(c.Quick())) + 1,
 		"capture_step_menu":      len(capMenu),
@@ -383,7 +384,7 @@ func run(c *vf.Ctx) {
 	go func() { spinDone <- c.RunPool(vf.PoolSpec{Worker: "spin", Shards: 4, Procs: 4, StallSecs: 600}) }()
 	merge(c.RunPool(vf.PoolSpec{Worker: "str", Shards: 48}))
 	merge(c.RunPool(vf.PoolSpec{Worker: "regex", Shards: 64}))
-	merge(c.RunPool(vf.PoolSpec{Worker: "fmt", Shards: 32}))
+	merge(c.RunPool(vf.PoolSpec{Worker: "fmt", Shards: 96}))
 	merge(c.RunPool(vf.PoolSpec{Worker: "inv", Shards: 16}))
 	merge(c.RunPool(vf.PoolSpec{Worker: "dsl", Shards: 16}))
 	merge(c.RunPool(vf.PoolSpec{Worker: "verbs", Shards: 16}))
@@ -435,6 +436,31 @@ func run(c *vf.Ctx) {
 	for i, n := range strAlphabetNames {
 		if symbols["str:"+n] == 0 {
 			c.Broken("alphabet symbol %q (%d) was never exercised", n, i)
+		}
+	}
+	// every decimal digit as the first and as a later digit of the width and precision numerals, numerals of 1..3 digits, every verb
+	for _, field := range []string{"width", "prec"} {
+		for _, pos := range []string{"lead", "rest"} {
+			for d := '0'; d <= '9'; d++ {
+				if d == '0' && pos == "lead" && field == "width" {
+					continue // a leading 0 is the 0 flag
+				}
+				if k := fmt.Sprintf("fmt:%s-digit:%s:%c", field, pos, d); symbols[k] == 0 {
+					c.Broken("format-syntax symbol %s was never exercised", k)
+				}
+			}
+		}
+	}
+	for _, field := range []string{"width", "prec"} {
+		for l := 1; l <= 3; l++ {
+			if k := fmt.Sprintf("fmt:%s-numeral-length:%d", field, l); symbols[k] == 0 {
+				c.Broken("format-syntax symbol %s was never exercised", k)
+			}
+		}
+	}
+	for _, v := range fmtVerbs {
+		if symbols["fmt:verb:"+v] == 0 {
+			c.Broken("format verb %%%s was never exercised", v)
 		}
 	}
 }
